@@ -356,13 +356,15 @@ INJECT_MENU = [
     ("read", 3_000, 12_000),
 ]
 
-STD_MKDIR = r'mkdir\("[^"]*/veryl/std/[0-9a-f]{16,}", [0-7]+\)\s+= 0'
+# std/<hash> (populated in place) or std/.<hash>.partial (populated privately, then renamed): both layouts match
+STD_MKDIR = r'mkdir\("[^"]*/veryl/std/\.?[0-9a-f]{16,}(\.partial)?", [0-7]+\)\s+= 0'
 BUILD_LOCKED = r'flock\(\d+<[^>]*/\.build/lock>, LOCK_EX\)\s+= 0'
-STD_FIRST_FILE = r'openat\([^)]*/veryl/std/[0-9a-f]{16,}/[a-z_]+/[a-z_0-9]+\.veryl", O_WRONLY'
+STD_FIRST_FILE = r'openat\([^)]*/veryl/std/\.?[0-9a-f]{16,}(\.partial)?/[a-z_]+/[a-z_0-9]+\.veryl", O_WRONLY'
 CACHE_STORE = r'/\.build/cache(-ls)?/lock>, LOCK_EX'
 RESOLVE_LOCKED = r'flock\(\d+<[^>]*/veryl/resolve/lock>, LOCK_EX\)\s+= 0'
-RESOLVE_UNLOCKED = r'flock\(\d+<[^>]*/veryl/resolve/lock>, LOCK_UN\)'
-INFO_WRITE = r'openat\([^)]*/\.build/info\.toml", O_WRONLY'
+RESOLVE_UNLOCKED = r'(flock\(\d+<[^>]*/veryl/resolve/lock>, LOCK_UN\)|close\(\d+<[^>]*/veryl/resolve/lock>\))'
+# info.toml rewritten in place, or its temp file (directly below .build) created for an atomic replace
+INFO_WRITE = r'openat\([^)]*/\.build/(info\.toml|\.tmp[A-Za-z0-9]+)", O_(WRONLY|RDWR)'
 
 
 def gen_schedule(rng, scenario, index):
@@ -652,7 +654,7 @@ def _run_schedule(s, case, baselines, timeout, res, sabotage):
     st = chk["stats"]
     for k in ("flock_calls", "flock_waited", "flock_wouldblock", "ls_flock_under_build", "ls_flock_nonblocking", "writer_sessions",
               "reads_inside_writer_interval", "reads_ordered_by_lock", "reader_writer_pairs_on_plainly_written_files",
-              "reads_of_rename_published_files", "population_bursts", "population_bursts_observed_by_other",
+              "reads_of_rename_published_files", "reads_below_rename_published_dirs", "population_bursts", "population_bursts_observed_by_other",
               "listings_inside_population", "listings_ordered_by_lock", "enoent_inside_population", "enoent_ordered_by_lock",
               "events", "parse_errors", "shared_written_paths"):
         if st.get(k):
